@@ -129,3 +129,26 @@ def strip_casts(e):
     while e[0] == "cast":
         e = e[1]
     return e
+
+
+def self_member_lit(prog, l):
+    """Literal saying 'self.id occurs in the iterated collection':  !iter.all(|id| id != self.id)  |
+    iter.any(|id| id == self.id).  Returns the iterator expression, else None."""
+    if l[0] != "is" or l[1][0] != "call":
+        return None
+    name = l[1][1]
+    if name.endswith("::all") and l[2] is False:
+        want = "Ne"
+    elif name.endswith("::any") and l[2] is True:
+        want = "Eq"
+    else:
+        return None
+    clo = [x for x in l[1][2] if x[0] == "closure"]
+    if not clo:
+        return None
+    r = closure_returns(prog, clo[0][1]) or []
+    if len(r) != 1 or r[0][1][0] != "bin" or r[0][1][1] != want:
+        return None
+    if not any(x[0] == "field" and x[2] == "RaftCore.id" for x in walk(r[0][1])):
+        return None
+    return l[1][2][0]
